@@ -423,15 +423,29 @@ def parser_ir():
     others = [n for n in t.body if not isinstance(n, (ast.FunctionDef, ast.Import, ast.ImportFrom))]
     if others or set(fns) != {'_et_xml_to_music_xml', '_parse_node', 'parse_musicxml'}:
         raise Fail('parser: module-level state or extra functions (%s)' % ', '.join(sorted(set(fns)) + [type(n).__name__ for n in others]))
+    def nodoc(stmts):
+        return [x for x in stmts if not (isinstance(x, ast.Expr) and isinstance(x.value, ast.Constant))]
     f = fns['_et_xml_to_music_xml']
-    body = list(f.body)
-    if len(body) != 4 or not isinstance(body[0], ast.If) or not isinstance(body[1], ast.Try) or not isinstance(body[2], ast.For) or not isinstance(body[3], ast.Return):
-        raise Fail('parser: _et_xml_to_music_xml is not  if / try / for / return')
-    # text = node.text.strip() if node.text else ''
+    body = nodoc(f.body)
+    # text = node.text.strip() if node.text else ''      (as an if statement or as a conditional expression)
+    if not body:
+        raise Fail('parser: empty _et_xml_to_music_xml')
     i = body[0]
-    src_if = ast.unparse(i)
-    if ast.unparse(i.test) != 'node.text' or len(i.body) != 1 or len(i.orelse) != 1 or ast.unparse(i.body[0]) != 'text = node.text.strip()' or ast.unparse(i.orelse[0]) != "text = ''":
-        raise Fail('parser: text preparation is not strip(): ' + src_if)
+    if isinstance(i, ast.If):
+        if ast.unparse(i.test) != 'node.text' or len(i.body) != 1 or len(i.orelse) != 1 or ast.unparse(i.body[0]) != 'text = node.text.strip()' or ast.unparse(i.orelse[0]) != "text = ''":
+            raise Fail('parser: text preparation is not strip(): ' + ast.unparse(i))
+    elif ast.unparse(i) != "text = node.text.strip() if node.text else ''":
+        raise Fail('parser: text preparation is not strip(): ' + ast.unparse(i))
+    body = body[1:]
+    # optionally the class name is computed once into a local
+    cls_exprs = ['eval(convert_to_xml_class_name(node.tag))']
+    if body and isinstance(body[0], ast.Assign) and len(body[0].targets) == 1 and isinstance(body[0].targets[0], ast.Name) and ast.unparse(body[0].value) == 'convert_to_xml_class_name(node.tag)' \
+            and body[0].targets[0].id not in ('text', 'node', 'output'):
+        cls_exprs = ['eval(%s)' % body[0].targets[0].id]
+        body = body[1:]
+    if len(body) != 3 or not isinstance(body[0], ast.Try) or not isinstance(body[1], ast.For) or not isinstance(body[2], ast.Return):
+        raise Fail('parser: _et_xml_to_music_xml is not  text; try; for; return')
+    body = [None] + body
 
     def conv(expr, var):
         u = ast.unparse(expr)
@@ -471,7 +485,7 @@ def parser_ir():
         if not isinstance(st, ast.Assign) or ast.unparse(st.targets[0]) != 'output' or not isinstance(st.value, ast.Call):
             raise Fail('parser: text rung is not output = cls(value_=...)')
         c = st.value
-        if ast.unparse(c.func) != 'eval(convert_to_xml_class_name(node.tag))' or c.args or len(c.keywords) != 1 or c.keywords[0].arg != 'value_':
+        if ast.unparse(c.func) not in cls_exprs or c.args or len(c.keywords) != 1 or c.keywords[0].arg != 'value_':
             raise Fail('parser: text rung constructor: ' + ast.unparse(c))
         return conv(c.keywords[0].value, 'text')
 
@@ -479,23 +493,32 @@ def parser_ir():
         if not isinstance(st, ast.Expr) or not isinstance(st.value, ast.Call) or ast.unparse(st.value.func) != 'setattr' or len(st.value.args) != 3:
             raise Fail('parser: attribute rung is not setattr(output, k, ...)')
         a = st.value.args
-        if ast.unparse(a[0]) != 'output' or ast.unparse(a[1]) != 'k':
+        if ast.unparse(a[0]) != 'output' or ast.unparse(a[1]) != kv[0]:
             raise Fail('parser: attribute rung target')
-        return conv(a[2], 'v')
+        return conv(a[2], kv[1])
     text = ladder(body[1], text_rung)
     fo = body[2]
-    if ast.unparse(fo.target) != '(k, v)' and ast.unparse(fo.target) != 'k, v' or ast.unparse(fo.iter) != 'node.attrib.items()' or len(fo.body) != 1 or fo.orelse:
+    if not (isinstance(fo.target, ast.Tuple) and len(fo.target.elts) == 2 and all(isinstance(x, ast.Name) for x in fo.target.elts)) \
+            or ast.unparse(fo.iter) != 'node.attrib.items()' or len(fo.body) != 1 or fo.orelse:
         raise Fail('parser: attribute loop: ' + ast.unparse(fo.target) + ' in ' + ast.unparse(fo.iter))
+    kv = [fo.target.elts[0].id, fo.target.elts[1].id]
+    if len(set(kv + ['output', 'node', 'text'])) != 5:
+        raise Fail('parser: attribute loop variables shadow another name')
     attr = ladder(fo.body[0], attr_rung)
     if ast.unparse(body[3]) != 'return output':
         raise Fail('parser: return')
     pn = fns['_parse_node']
     exp = ['output = _et_xml_to_music_xml(xml_node)', 'for child in xml_node:\n    output.add_child(_parse_node(child))', 'return output']
-    if [ast.unparse(x) for x in pn.body] != exp:
+    if [ast.unparse(x) for x in nodoc(pn.body)] != exp:
         raise Fail('parser: _parse_node is not  convert; add every child in file order; return')
     pm = fns['parse_musicxml']
-    if len(pm.body) != 2 or not isinstance(pm.body[0], ast.With) or ast.unparse(pm.body[1]) != 'return _parse_node(xml.getroot())' or \
-            [ast.unparse(x) for x in pm.body[0].body] != ['xml = ET.parse(file)']:
+    pb = nodoc(pm.body)
+    okpm = len(pb) == 2 and isinstance(pb[0], ast.With) and len(pb[0].items) == 1 and isinstance(pb[0].items[0].optional_vars, ast.Name) and len(pb[0].body) == 1 \
+        and isinstance(pb[0].body[0], ast.Assign) and len(pb[0].body[0].targets) == 1 and isinstance(pb[0].body[0].targets[0], ast.Name)
+    if okpm:
+        fvar, tvar = pb[0].items[0].optional_vars.id, pb[0].body[0].targets[0].id
+        okpm = ast.unparse(pb[0].body[0].value) == 'ET.parse(%s)' % fvar and ast.unparse(pb[1]) == 'return _parse_node(%s.getroot())' % tvar and fvar != tvar
+    if not okpm:
         raise Fail('parser: parse_musicxml is not  open; ET.parse; _parse_node(root)')
     return {'strip': True, 'text': text, 'attr': attr, 'children_in_file_order': True}
 
@@ -663,7 +686,29 @@ def serialise_ir():
            'if self.value_ is not None:\n    self._et_xml_element.text = str(self.value_)',
            'for child in self.get_children():\n    self._et_xml_element.append(child.et_xml_element)',
            "ET.indent(self._et_xml_element, space='  ', level=self.get_level())"]
-    got = [ast.unparse(st) for st in f.body if not (isinstance(st, ast.Expr) and isinstance(st.value, ast.Constant))]
+    body = [st for st in f.body if not (isinstance(st, ast.Expr) and isinstance(st.value, ast.Constant))]
+    got = [ast.unparse(st) for st in body]
+    if got[:1] != exp[:1]:
+        # the same dictionary spelt as a loop:  [tag = self.name;]  D = {};  for a, b in self.attributes.items(): D[a] = str(b);  ... = ET.Element(self.name | tag, D)
+        i = 0
+        tag = None
+        if i < len(body) and isinstance(body[i], ast.Assign) and len(body[i].targets) == 1 and isinstance(body[i].targets[0], ast.Name) and ast.unparse(body[i].value) == 'self.name':
+            tag = body[i].targets[0].id
+            i += 1
+        if i + 2 < len(body) and isinstance(body[i], ast.Assign) and len(body[i].targets) == 1 and isinstance(body[i].targets[0], ast.Name) and ast.unparse(body[i].value) in ('{}', 'dict()'):
+            d = body[i].targets[0].id
+            lp = body[i + 1]
+            ok = isinstance(lp, ast.For) and not lp.orelse and ast.unparse(lp.iter) == 'self.attributes.items()' and isinstance(lp.target, ast.Tuple) and len(lp.target.elts) == 2 \
+                and all(isinstance(x, ast.Name) for x in lp.target.elts) and len(lp.body) == 1
+            if ok:
+                a, b = lp.target.elts[0].id, lp.target.elts[1].id
+                ok = ast.unparse(lp.body[0]) == '%s[%s] = str(%s)' % (d, a, b) and len({a, b, d, tag}) == 4 - (tag is None) + (tag is None)
+            if ok and ast.unparse(body[i + 2]) in ('self._et_xml_element = ET.Element(self.name, %s)' % d,) + (('self._et_xml_element = ET.Element(%s, %s)' % (tag, d),) if tag else ()):
+                rest = body[i + 3:]
+                # the locals of the loop must not be used afterwards
+                later = {n.id for st in rest for n in ast.walk(st) if isinstance(n, ast.Name)}
+                if not ({a, b, d} & later) and (tag is None or tag not in later):
+                    got = [exp[0]] + [ast.unparse(st) for st in rest]
     if got != exp:
         raise Fail('_create_et_xml_element has changed: ' + ' | '.join(x[:60] for x in got))
     gb = [ast.unparse(st) for st in g.body if not (isinstance(st, ast.Expr) and isinstance(st.value, ast.Constant))]
